@@ -11,7 +11,7 @@ package main
 //     in the enumeration, so each is "cut at every token position"; rendered with and without a
 //     trailing blank (a pending atom in the buffer / flushed) and with and without the end of
 //     the input signalled;
-//   * every sequence of up to 2 tokens over a larger alphabet (adds */ ' ` ^ ~@ \ + / k: "s" `r`
+//   * every sequence of up to 2 (thorough: 3) tokens over a larger alphabet (adds */ ' ` ^ ~@ \ + / k: "s" `r`
 //     'c' , ; and two lexical errors);
 //   * every stack of open brackets of depth 1–4 over ( [ { x what stands in the innermost
 //     bracket (nothing, elements, a closed nested form) x how the text stops (after the opener /
@@ -209,13 +209,20 @@ func genParseHist(g *Gen, p *pgen) {
 			k++
 		})
 	}
-	// 2. the larger alphabet, length <= 2
-	for n := 1; n <= 2; n++ {
+	// 2. the larger alphabet, length <= 2 (thorough: 3)
+	maxb := 2
+	if g.Thorough() {
+		maxb = 3
+	}
+	for n := 1; n <= maxb; n++ {
 		enumerateToks(histBigAlpha, n, func(seq []string) {
 			h.k++
 			rs := histRoutes
 			if n == 2 {
 				rs = []string{histRoutes[h.k%4], histRoutes[(h.k+1)%4]}
+			}
+			if n == 3 {
+				rs = []string{histRoutes[h.k%4]}
 			}
 			h.single(strings.Join(seq, " "), rs, 1, "exhaustive big-alphabet history")
 		})
@@ -231,7 +238,7 @@ func genParseHist(g *Gen, p *pgen) {
 	// 4. histories of 2 and 3 earlier texts
 	N := 1500
 	if g.Thorough() {
-		N = 40000
+		N = 120000
 	}
 	pickText := func() string {
 		switch g.Rng.Intn(5) {
@@ -287,7 +294,7 @@ func genParseHist(g *Gen, p *pgen) {
 	// 5. Stop() without a reset: what the stopped coroutine read while unwinding (model only)
 	M := 600
 	if g.Thorough() {
-		M = 8000
+		M = 30000
 	}
 	for i := 0; i < M; i++ {
 		mode := "a"
